@@ -44,6 +44,21 @@ type rs struct {
 var anchors = map[string]bool{"waitRdbDump": true, "sendPSyncCmd": true, "runIncrementalSync": true, "pSyncPipeCopy": true, "dump": true, "sendCmd": true,
 	"dumpRDBFile": true, "dumpCommand": true, "sendSyncCmd": true, "syncRDBFile": true, "syncCommand": true}
 
+// guard records a three-valued guard obligation: VIOLATION only when a path
+// reaches the site through tests that are all understood and none of which
+// establishes the fact; a test on the tracked values in an unknown form makes
+// it UNDECIDED.
+func (r *rs) guard(rule, key string, pos token.Pos, g *cfgq.Graph, p cfgq.Point, want func(cfgq.Fact) bool, opaque flow.EdgeTest, detail string) {
+	switch v, w := flow.Guard(g, p, want, opaque); v {
+	case flow.Holds:
+		r.c.Check(rule, key, pos, true, detail)
+	case flow.Violated:
+		r.c.Check(rule, key, pos, false, detail, w...)
+	default:
+		r.c.Undecidedf(rule, key, pos, "the site is guarded by a test on the tracked value whose form is not understood; required: %s", detail)
+	}
+}
+
 // fn resolves an anchor and returns its view with helper calls inlined.
 func (r *rs) fn(pkgPath, recv, name string) *core.Fn { return r.inl.Fn(r.c.Func(pkgPath, recv, name)) }
 
